@@ -50,7 +50,7 @@ def run(F, R, tier):
     R.floor("run-time functions audited", len(fns), 280)
     # stale justifications (only those that name a function of this audit)
     for gi, g in enumerate(A.groups):
-        if g["fn"] in fns:
+        if g.get("fn") in fns:
             n = len(A.group_hits.get(gi, []))
             R.ob("justified-group-count", g["name"], n == g["count"],
                  "group justification matches %d sites, reviewed count is %d" % (n, g["count"]), nontrivial=False)
